@@ -9,6 +9,14 @@ def main():
     if rc != 0:
         print(out[-3000:])
         return 1
+    d = K.gen_lift()
+    rc, out, wall = C.run(["cargo", "kani", "--target-dir", os.path.join(C.BUILD, "t-liftk"), "--only-codegen"], cwd=d, timeout=3000)
+    print("liftk codegen rc=%s wall=%.0fs" % (rc, wall))
+    if rc != 0:
+        print(out[-3000:])
+        return 1
+    rc, out, wall = C.run(["cargo", "test", "--offline", "--lib", "--no-run"], cwd=d, timeout=3000)
+    print("liftk native test build rc=%s wall=%.0fs" % (rc, wall))
     return 0
 
 if __name__ == "__main__":
